@@ -1,14 +1,20 @@
 #!/venv/bin/python
-"""tools/mkmutant.py NAME FILE 'old' 'new' [count]  -> writes /verif/mutants/NAME.patch (repo left clean)."""
+"""tools/mkmutant.py NAME FILE 'old' 'new' [nth]  -> writes /verif/mutants/NAME.patch (repo left clean).
+nth (1-based) selects which occurrence to replace when the pattern is not unique."""
 import subprocess, sys
 name, rel, old, new = sys.argv[1:5]
-cnt = int(sys.argv[5]) if len(sys.argv) > 5 else 1
+nth = int(sys.argv[5]) if len(sys.argv) > 5 else None
 p = "/repo/" + rel
 s = open(p).read()
-assert s.count(old) >= 1, "pattern not found"
-if cnt == 1:
-    assert s.count(old) == 1, "pattern not unique: %d" % s.count(old)
-s2 = s.replace(old, new) if cnt != 1 else s.replace(old, new, 1)
+n = s.count(old)
+assert n >= 1, "pattern not found"
+if nth is None:
+    assert n == 1, "pattern not unique: %d (give nth)" % n
+    nth = 1
+pos = -1
+for _ in range(nth):
+    pos = s.index(old, pos + 1)
+s2 = s[:pos] + new + s[pos + len(old):]
 open(p, "w").write(s2)
 d = subprocess.run(["git", "-C", "/repo", "diff"], capture_output=True, text=True).stdout
 open("/verif/mutants/%s.patch" % name, "w").write(d)
